@@ -159,7 +159,7 @@ fn parse_rub(s: &str) -> RubKind {
     }
 }
 fn parse_rank(s: &str) -> RankKind {
-    if s == "Natural" { RankKind::Natural } else if s == "Reverse" { RankKind::Reverse } else {
+    if s == "Natural" { RankKind::Natural } else if s == "Reverse" { RankKind::Reverse } else if s == "Flat" { RankKind::Flat } else {
         RankKind::Random(s.trim_start_matches("Random(").trim_end_matches(')').parse().unwrap_or(1))
     }
 }
@@ -216,7 +216,7 @@ pub struct Profile {
 
 pub fn random_variant(rng: &mut Rng, with_dom: bool) -> Variant {
     let rub = match rng.below(4) { 0 => RubKind::None, 1 | 2 => RubKind::Exact, _ => RubKind::Slack(rng.next() % 1000) };
-    let rank = match rng.below(4) { 0 | 1 => RankKind::Natural, 2 => RankKind::Reverse, _ => RankKind::Random(rng.next() % 1000) };
+    let rank = match rng.below(8) { 0..=3 => RankKind::Natural, 4 | 5 => RankKind::Reverse, 6 => RankKind::Flat, _ => RankKind::Random(rng.next() % 1000) };
     let dom = if with_dom { match rng.below(3) { 0 => DomKind::None, 1 => DomKind::Exact, _ => DomKind::Weak } } else { DomKind::None };
     Variant { rub, rank, dom }
 }
